@@ -8,10 +8,13 @@ def run(ck):
     quick = ck.tier == "quick"
     cdir, ok = vlib.proof_phase(ck, "Properties_C06.v", translators=("tables", "dispatch", "access", "lockcfg"))
     # lock fact: each uplink queue is only touched under its own mutex (readers racing the receiver)
-    okl, logl = vlib.coq_make(cdir, ["LockProofs.vo"])
+    okl, logl = vlib.coq_make(cdir, ["LockProofs.vo", "LockQueues.vo"])
     diag, side = vlib.lock_diagnosis(cdir, kinds=("guard", "balance"), threadsafe_only=True)
     rel = [d for d in diag if "uplink_" in d["what"]]
-    ck.oblige("lock fact: uplink queues only used under their own mutex", okl and not rel, "; ".join(d["what"] for d in rel[:3]))
+    # ... and on every other public function that runs while the receiver thread is alive (reset, stop): C06_queue_access_guarded
+    rel += [{"entry": e["entry"], "what": e["what"], "call_chain": e.get("chain", []), **{k: e[k] for k in ("function", "file", "line", "global", "guard", "mode", "held") if k in e}}
+            for e in side.get("queue_errors", []) if not any(d["entry"] == e["entry"] and d["what"] == e["what"] for d in rel)]
+    ck.oblige("lock fact: uplink queues only used under their own mutex (every public function but the start functions, and the library threads)", okl and not rel, "; ".join(d["what"] for d in rel[:3]))
     if not okl or rel:
         ck.broken.append({"kind": "lock-fact", "name": "guarded_by uplink queue mutexes", "detail": rel[:5] or logl[-800:]})
     # readers racing the receiver on the real code, under ThreadSanitizer: application threads pop both user queues while the
@@ -33,6 +36,19 @@ def run(ck):
         if lost and not races:
             ck.violation("race.queue-stress-count", {"property": "C06", "script": tscript, "observed": tout[-400:], "driver_rc": trc, "stderr": terr[-600:], "reason": "messages were lost or returned twice (or the driver died) while readers raced the receiver"})
         ck.oblige("readers racing the receiver under ThreadSanitizer: %d messages, each returned once, no race in library frames" % (2 * rounds), not races and not lost, "%d race report(s), count ok: %s" % (len(races), not lost))
+        # the queue resets of bidib_send_sys_reset racing the receiver (the application may not call anything else during a
+        # reset, but the library's own receiver thread keeps appending)
+        fi = hexs(frame(upmsg([1], 3, 0x90, [1, 2])))
+        rscript = ["start 0 - 0", "logw 0", "qreset %d %s %s" % (rounds, hexs(frame(upmsg([1], 1, 0x82, [7]) + upmsg([1], 2, 0x8B, [1, 2]))), fi)]
+        rrc, rout, rerr = vlib.run_driver(texe, "\n".join(rscript) + "\n", timeout=300, env_extra=C10.TSAN_ENV)
+        rraces, _ = C10.tsan_races(rerr)
+        for rr_ in rraces[:2]:
+            ck.violation("race.tsan.reset.%s" % rr_["function"], {"property": "C06", "tsan": True, "script": rscript, "tsan_report": rr_["report"], "function": rr_["function"], "file": rr_["file"], "line": rr_["line"],
+                         "reason": "ThreadSanitizer reports a data race in library code between the queue resets of a system reset and the receiver thread appending"})
+        rdead = "qreset rounds" not in rout
+        if rdead and not rraces:
+            ck.violation("race.queue-reset-died", {"property": "C06", "script": rscript, "driver_rc": rrc, "observed": rout[-300:], "stderr": rerr[-800:], "reason": "the driver died while queue resets raced the receiver"})
+        ck.oblige("queue resets (as in bidib_send_sys_reset) racing the receiver under ThreadSanitizer: %d rounds, no race in library frames" % rounds, not rraces and not rdead, "%d race report(s)" % len(rraces))
     except vlib.BuildBroken as e:
         ck.oblige("readers racing the receiver under ThreadSanitizer (harness build)", False, str(e)[:300])
     finally:
@@ -43,20 +59,24 @@ def run(ck):
     r_err, r_errc, r_msg = lst("readme_errq"), lst("readme_errq_cond"), lst("readme_msgq")
     r = Rng(ck.seed).fork("C06")
     cases = []
-    # every type code x {error variant, non-error} x both modes x two address depths
+    # every type code x {error variants, non-error variants} x both modes x address depths 0, 1 and 3 (2 sampled)
     for debug in (1, 0):
         for ty in range(256):
             if ty == 0x8E: continue
-            for variant in range(3 if ty in r_errc else 1):
+            for variant in range(5 if ty in r_errc else 1):
                 data = [r.below(256) for _ in range(12)]
-                if ty in (0xB8, 0xBA): data[3] = [0x80, 0x00, 0x01][variant]
-                if ty == 0xB0: data[0] = [0x01, 0x80, 0x83][variant]
-                if ty == 0xE6: data[0] = [1, 0, 2][variant]
+                # conditional types: error variant with a random, an all-zero and an all-ones remainder; two non-error variants
+                if ty in (0xB8, 0xBA):
+                    data[3] = [0x80, 0x00, 0x01, 0x80, 0x80][variant]
+                    if variant >= 3: data[4] = [0x00, 0xFF][variant - 3]
+                if ty == 0xB0: data[0] = [0x01, 0x80, 0x83, 0x00, 0xFF][variant]
+                if ty == 0xE6: data[0] = [1, 0, 2, 0xFF, 0x80][variant]
                 if ty in (0x8C, 0x8D): data = data[:9]
                 if ty == 0xA2: data[1] = 8      # bm_multiple: size 8 bits
                 if ty == 0x93: data = [1, 65, 1, 66]   # vendor: length-prefixed strings
                 if ty == 0xB2: data = data[:4]
-                cases.append((debug, [("rx", upmsg([1] if r.chance(1, 2) else [], r.below(256), ty, data))], "type"))
+                for addr in ([[1], [], [1, 2, 3]] if variant == 0 else [[[1], [], [1, 2], [1, 2, 3]][r.below(4)]]):
+                    cases.append((debug, [("rx", upmsg(addr, r.below(256), ty, data))], "type"))
     # the dispatcher's guard: for every type with a minimum number of data bytes (generated table) a message one byte short and
     # one with exactly the minimum, in both modes (short: dropped in normal mode, queued in debug mode; exact: routed as always)
     atxt = open(os.path.join(cdir, "AccessTab.v")).read() if os.path.exists(os.path.join(cdir, "AccessTab.v")) else ""
